@@ -92,14 +92,14 @@ def shared_checker():
 
 
 def cross_type_equal(v, ty):
-    """Would v be a member if literal equality ignored the type (True == 1, 1 == 1.0)?"""
+    """Would v be a member if literal equality ignored the type (True == 1, (True,) == (1,))?"""
     orig = member.lit_eq
 
     def relaxed(o, l):
         if orig(o, l):
             return True
         try:
-            return bool(o == l) and isinstance(o, (bool, int, float, complex)) and isinstance(l, (bool, int, float, complex))
+            return bool(o == l) and isinstance(o, (bool, int, float, complex, tuple, list, str, bytes, frozenset, set, dict))
         except Exception:
             return False
     member.lit_eq = relaxed
@@ -107,6 +107,26 @@ def cross_type_equal(v, ty):
         return member.mem(v, ty) is True
     finally:
         member.lit_eq = orig
+
+
+def numeric_literal_tests(fd):
+    """Does the function compare something with an int literal via ==, !=, in, not in or a
+    match value pattern?"""
+    for n in ast.walk(fd):
+        if isinstance(n, ast.Compare) and any(isinstance(op, (ast.Eq, ast.NotEq, ast.In, ast.NotIn)) for op in n.ops):
+            if any(isinstance(c, ast.Constant) and type(c.value) in (int, float) for c in ast.walk(n)):
+                return True
+        if isinstance(n, ast.MatchValue) and isinstance(n.value, ast.Constant) and type(n.value.value) in (int, float):
+            return True
+    return False
+
+
+def jump_in_try_or_with(fd):
+    for n in ast.walk(fd):
+        if isinstance(n, (ast.Try, ast.With)):
+            if any(isinstance(j, (ast.Break, ast.Continue)) for j in ast.walk(n)):
+                return True
+    return False
 
 
 def related_conditions(fdef, node):
@@ -168,8 +188,19 @@ def run_module(funcs, col=None):
     current = {"func": None, "args": None}
     stats = {"checks": 0, "any": 0, "unknown": 0, "unvisited": 0}
 
+    probe = {"k": None, "failed": False}
+    pending_cross = []
+
     def rec(k, v):
         vals = values_by_k.get(k)
+        if probe["k"] is not None:
+            # probe mode: only watch one node
+            if k == probe["k"] and vals is not None:
+                if k not in tys:
+                    tys[k] = member.from_value(sut.union_of(vals))
+                if not member.has_top_any(tys[k]) and member.mem(v, tys[k]) is False:
+                    probe["failed"] = True
+            return v
         if vals is None:
             stats["unvisited"] += 1
             return v
@@ -201,17 +232,26 @@ def run_module(funcs, col=None):
             never = " (inferred Never: pyanalyze considers this unreachable)" if ty == member.NEVER else ""
             conds = related_conditions(fdefs[fname], node)
             key = f"{type(node).__name__}|inferred:{type(union).__name__ if ty != member.NEVER else 'Never'}|conds:{';'.join(conds)[:120]}"
-            if cross_type_equal(v, ty) or (isinstance(v, bool) and any(
-                    re.search(r"(==|!=| in |case ).*\bN\b|\bN\b (==|!=)", c) for c in conds)):
+            fd = fdefs[fname]
+            args_now = current["args"] or ()
+            coarse_cross = (isinstance(v, bool) or any(_has_bool(a) for a in args_now)) and numeric_literal_tests(fd)
+            if cross_type_equal(v, ty):
+                # True == 1: equality-based narrowing / KnownValue equality ignore the bool-int distinction
                 key = "cross-type-equality-narrowing"
-            elif any("isinstance(_, float)" in c or "isinstance(_, complex)" in c for c in conds):
+            elif any("isinstance(_, float)" in c or "isinstance(_, complex)" in c for c in conds) or (
+                    any(isinstance(a, (bool, int)) for a in args_now) and "isinstance(" in ast.unparse(fd) and re.search(r"isinstance\(\w+, \(?(float|complex)", ast.unparse(fd))):
                 key = "isinstance-numeric-promotion"
-            elif any(isinstance(m, ast.Match) for i in ast.walk(fdefs[fname]) if isinstance(i, (ast.If, ast.While, ast.For, ast.Try, ast.With))
-                     for m in ast.walk(i)):
-                # a match statement on a variable that is also narrowed by an enclosing condition
+            elif jump_in_try_or_with(fd):
+                key = "jump-inside-try-or-with"
+            elif any(isinstance(m, ast.Match) for i in ast.walk(fd) if isinstance(i, (ast.If, ast.While, ast.For, ast.Try, ast.With, ast.Match))
+                     for m in ast.walk(i) if m is not i):
                 key = "match-inside-narrowed-branch"
-            failures.append((key, f"`{ast.unparse(node)}` (line {node.lineno}) evaluated to {v!r} which is not in the inferred type "
-                             f"{union}{never}; call {fname}{current['args']!r}", fname))
+            entry = (key, f"`{ast.unparse(node)}` (line {node.lineno}) evaluated to {v!r} which is not in the inferred type "
+                     f"{union}{never}; call {fname}{current['args']!r}", fname)
+            if coarse_cross and key != "cross-type-equality-narrowing":
+                pending_cross.append((entry, k, args_now, tuple(current.get("script") or ())))
+            else:
+                failures.append(entry)
         return v
 
     fname_src = {f["name"]: f["src"] for f in funcs}
@@ -230,15 +270,53 @@ def run_module(funcs, col=None):
         for args in gen_prog.arg_tuples(f["ptypes"], 6):
             for sc in SCRIPTS:
                 pv_vocab._script[:] = list(sc)
-                current["func"], current["args"] = name, args
+                current["func"], current["args"], current["script"] = name, args, sc
                 try:
                     fn(*args)
                 except Exception:
                     pass  # runtime errors only truncate the trace
+    # A failure seen only with a bool argument in a function that tests against numeric literals:
+    # re-execute the same call with every bool replaced by the equal int (True -> 1).  Control flow
+    # is identical (True == 1), so if the failure disappears it is the bool/int equality family.
+    for entry, k, args, sc in pending_cross:
+        probe["k"], probe["failed"] = k, False
+        pv_vocab._script[:] = list(sc)
+        try:
+            ns[entry[2]](*[_debool(a) for a in args])
+        except Exception:
+            pass
+        probe["k"] = None
+        ptypes = next((f["ptypes"] for f in funcs if f["name"] == entry[2]), [])
+        if probe["failed"] and not any(t == "bool" for t in ptypes):
+            failures.append(entry)
+        else:
+            failures.append(("cross-type-equality-narrowing", entry[1] + " [disappears when the bool argument is replaced by the equal int]", entry[2]))
     if col is not None:
         for k2, v2 in stats.items():
             col.extra[k2] = col.extra.get(k2, 0) + v2
     return failures
+
+
+def _has_bool(a):
+    if isinstance(a, bool):
+        return True
+    if isinstance(a, (list, tuple, set, frozenset)):
+        return any(_has_bool(x) for x in a)
+    if isinstance(a, dict):
+        return any(_has_bool(x) for x in a.values()) or any(_has_bool(x) for x in a)
+    return False
+
+
+def _debool(a):
+    if isinstance(a, bool):
+        return int(a)
+    if isinstance(a, list):
+        return [_debool(x) for x in a]
+    if isinstance(a, tuple):
+        return tuple(_debool(x) for x in a)
+    if isinstance(a, dict):
+        return {_debool(k): _debool(v) for k, v in a.items()}
+    return a
 
 
 @st.composite
